@@ -10,7 +10,7 @@ fn lib_root(leaves: &[[u8; 32]]) -> [u8; 32] {
 }
 
 fn leaves_of(r: &mut Rg, n: usize, style: u64) -> Vec<[u8; 32]> {
-    match style % 4 {
+    match style % 6 {
         0 => (0..n).map(|_| gen::arr32(r)).collect(),
         1 => {
             let x = gen::arr32(r);
@@ -23,6 +23,15 @@ fn leaves_of(r: &mut Rg, n: usize, style: u64) -> Vec<[u8; 32]> {
                 a
             })
             .collect(),
+        4 => {
+            // sparse: all-zero leaves sprinkled between random ones (zero left/right siblings)
+            (0..n).map(|_| if r.gen_range(0..3) == 0 { [0u8; 32] } else { gen::arr32(r) }).collect()
+        }
+        5 => {
+            // values from a two-element alphabet {0, x}: all-zero inner nodes' inputs at many levels
+            let x = gen::arr32(r);
+            (0..n).map(|_| if r.gen_range(0..2) == 0 { [0u8; 32] } else { x }).collect()
+        }
         _ => {
             // two alternating values: adjacent-equal pairs and repeated subtrees
             let a = gen::arr32(r);
@@ -48,7 +57,7 @@ fn check_eq(ctx: &mut Ctx, leaves: &[[u8; 32]], style: u64) {
         json!({"count": n, "style": style, "expected": hex(&want), "observed": hex(&got),
                "first_leaf": leaves.first().map(|l| hex(l))})
     });
-    ctx.shape((n, style % 4));
+    ctx.shape((n, style % 6));
     ctx.count(&format!("counts/{}", class));
 }
 
@@ -56,7 +65,7 @@ pub fn run(ctx: &mut Ctx) {
     // phase 1: EVERY leaf count 0..=bound, four leaf styles each (exhaustive in the count)
     let bound = ctx.budget(600, 5000);
     ctx.phase("all-counts", bound + 1, |ctx, n| {
-        for style in 0..4u64 {
+        for style in 0..6u64 {
             let leaves = leaves_of(&mut ctx.rng, n as usize, style);
             check_eq(ctx, &leaves, style);
             if n == 0 {
@@ -111,7 +120,7 @@ pub fn run(ctx: &mut Ctx) {
             2 => p + 1,
             _ => p + ctx.rng.gen_range(2..p),
         };
-        let style = ctx.rng.gen_range(0..4);
+        let style = ctx.rng.gen_range(0..6);
         let leaves = leaves_of(&mut ctx.rng, n, style);
         check_eq(ctx, &leaves, style);
         ctx.max("largest_count", n as u64);
